@@ -170,6 +170,9 @@ def handle (cmd : String) (args : List Sexp) : Option Sexp :=
       let kind := match p.kind with | .p2pk => "p2pk" | .htlc => "htlc" | .anyone => "anyone"
       some (.list [.atom "secret", .atom kind, .str p.nonce, .str p.data, .list (p.tags.map ofStrs)])
     | none => some (.atom "plain")
+  | "spend.parse-witness", [.atom kind, s] => do
+    let w := Nut10Parse.parseWitness (kind == "htlc") (← s.asStr?)
+    some (.list [.atom "w", Sexp.ofBool w.jsonOk, ofStrs w.signatures, .str w.preimage])
   | "spend.parseint", [s, bits] => do
     match parseInt (← s.asStr?) (← bits.asNat?) with
     | some v => some (.list [.atom "ok", ofInt v])
